@@ -57,7 +57,9 @@ func TestCheck(t *testing.T) {
 		"last refresh/update; non-trivial = asked before by another requester or before the last refresh/update (i.e. a cache entry written by someone " +
 		"else / under older content could be served).  straddle: a reader parked by the hashprefix.afterMatch hook across a completed hash-list refresh " +
 		"(non-trivial = the reader was really parked and the refresh returned meanwhile).  concurrent: 8 readers x 1 refresher histories per component, " +
-		"decided by an interval rule and by porcupine against a per-host version register (non-trivial = at least one read overlapped a refresh)")
+		"decided by an interval rule and by porcupine against a per-host version register (non-trivial = at least one read overlapped a refresh).  " +
+		"safe-search stress: 16 readers cycling over 36000 (host, qtype, list) keys whose verdict changes with every version, 6 in-place refreshes per history; " +
+		"after each refresh returned the readers wait at a barrier and every key they touched last is asked once")
 	r.Assume("rule lists, blocked-service lists and safe-search lists carry no client-specific modifiers ($client etc.); custom rules may")
 	r.Assume("ConfigCustom.UpdateTime advances whenever the rules of a profile change (documented meaning of the field); a request that carries an OLDER " +
 		"snapshot than one the storage has already seen may be answered with the newer rules (documented: the cached filter is used unless it is older than the request's UpdateTime)")
@@ -79,8 +81,11 @@ func TestCheck(t *testing.T) {
 	straddlePhase(r, s)
 	t2 := time.Now()
 	concurrentPhase(r, s)
+	t3 := time.Now()
+	safeSearchStressPhase(r, s)
 	r.Extra("phase_wall_s", map[string]float64{
-		"sequential": t1.Sub(t0).Seconds(), "straddle": t2.Sub(t1).Seconds(), "concurrent": time.Since(t2).Seconds(),
+		"sequential": t1.Sub(t0).Seconds(), "straddle": t2.Sub(t1).Seconds(), "concurrent": t3.Sub(t2).Seconds(),
+		"safe_search_stress": time.Since(t3).Seconds(),
 	})
 
 	r.Bucket("hashprefix_result_cache_hits", int64(hashHitCounters()-hits0))
@@ -104,6 +109,10 @@ func TestCheck(t *testing.T) {
 	r.Require("conc_reads_overlapping_a_refresh", 50)
 	r.Require("conc_reads_after_a_refresh", 200)
 	r.Require("porcupine_ok", 20)
+	r.Require("ss_stress_refreshes", 12)
+	r.Require("ss_stress_reader_calls_overlapping_a_refresh", 2000)
+	r.Require("ss_stress_probed_keys_touched_during_the_refresh", 200)
+	r.Require("ss_stress_probes_after_refresh_returned", 2000)
 }
 
 func hashHitCounters() float64 {
